@@ -156,11 +156,16 @@ class Portfolio(IncrementalTrackingSolver):
             _p.start()
             _debug("Started instance of %s", sname)
 
+        failures = 0
         while True:
             (sname, res) = signaling_queue.get(block=True)
             if isinstance(res, BaseException):
-                if cast(PortfolioOptions, self.options).exit_on_exception:
-                    # Close all solvers and raise exception
+                failures += 1
+                if cast(PortfolioOptions, self.options).exit_on_exception or \
+                   failures == len(processes):
+                    # Close all solvers and raise exception. If all the
+                    # solvers failed, no answer will ever arrive:
+                    # waiting for it would block forever.
                     for p in processes:
                         p.terminate()
                     raise res
